@@ -5,12 +5,15 @@ import Mathlib.Algebra.BigOperators.Group.List.Basic
 import Mathlib.Tactic.Ring
 import Mathlib.Tactic.Linarith
 import Mathlib.Tactic.Positivity
+import Mathlib.Tactic.NormNum
+import Mathlib.Tactic.FieldSimp
 /-!
 # Exact scalars
 
 The theorems are about the model instantiated at a linearly ordered field
 (`ℚ`, `ℝ`, …): every value is finite, nothing is NaN, `==` is equality.
 -/
+set_option linter.unusedSectionVars false
 namespace Cfr
 
 /-- an ordered field read as "doubles without rounding": finite, never NaN -/
